@@ -162,6 +162,11 @@ def c08(tier):
     return fam(8, tier, cut=False)
 
 
+def fam_quote(prop, tier):
+    q = tier == "quick"
+    return [dict(harness="verifHarness_FamQuote", args=[prop, f, 1 if q else 2, 2], cut=CUT) for f in range(NFAM)]
+
+
 def c02(tier):
     return s1_parser("verifHarness_C02", "C02/accepted", tier) + [dict(r, args=[2] + r["args"][1:]) for r in s2_accepting(1, tier)] + fam(2, tier) + corpus(2)
 
@@ -290,7 +295,7 @@ def c04(tier):
 
 
 def c05(tier):
-    return s1_parser("verifHarness_C05", "C05/done", tier) + s2_accepting(5, tier) + s2_errors(5, tier)[:4] + fam(5, tier) + corpus(5)
+    return s1_parser("verifHarness_C05", "C05/done", tier) + s2_accepting(5, tier) + s2_errors(5, tier)[:4] + fam(5, tier) + fam_quote(5, tier) + corpus(5)
 
 
 def c09(tier):
